@@ -88,7 +88,7 @@ static ps_priv_t *alloc_ps_msg(const ps_priv_t *msg, ev_src_t *sub) {
         memcpy(m, msg, sizeof(ps_priv_t));
         m->msg.sender = m_mem_ref((void *)m->msg.sender); // keep module alive until message is dispatched
         m->autofree_data = m_mem_ref(m->autofree_data);   // user data is freed when last copy of the message is destroyed
-        m->sub = sub;
+        m->sub = m_mem_ref(sub);                          // subscription may be dropped before message is received
     }
     return m;
 }
@@ -97,6 +97,7 @@ static void ps_msg_dtor(void *data) {
     ps_priv_t *pubsub_msg = (ps_priv_t *)data;
     
     m_mem_unref(pubsub_msg->autofree_data);
+    m_mem_unref(pubsub_msg->sub);
     if (pubsub_msg->msg.sender) {
         m_mem_unref((void *)pubsub_msg->msg.sender);
     }
